@@ -249,6 +249,96 @@ class _Run:
             w = urwid.BoxAdapter(base, spec.get("h", 3))
         return Node(spec, k, w, base, kids)
 
+    # ------------------------------------------------------------------ fresh replica (history independence)
+    def clone_widgets(self, n: Node, sink):
+        """A brand-new widget tree with the same structure, options and focus positions as the live one (read
+        through the public API), with fresh recording leaves that report to `sink`.  Returns the widget to put
+        where n.w sits, or None when the live state cannot be read."""
+        import urwid  # noqa: PLC0415
+
+        if n.kind == "leaf":
+            return type(n.base)(sink, n.spec)
+        live = n.base
+        kids = []
+        for c in n.kids:
+            if c is None:
+                kids.append(None)
+                continue
+            w = self.clone_widgets(c, sink)
+            if w is None:
+                return None
+            kids.append(w)
+        if n.kind in ("Pile", "Columns", "GridFlow"):
+            if len(live.contents) != len(kids):
+                return None
+            if n.kind == "Pile":
+                base = urwid.Pile([])
+            elif n.kind == "Columns":
+                base = urwid.Columns([], dividechars=live.dividechars, min_width=live.min_width)
+            else:
+                base = urwid.GridFlow([], live.cell_width, live.h_sep, live.v_sep, live.align)
+            base.contents = [(w, live.contents[i][1]) for i, w in enumerate(kids)]
+            if kids:
+                base.focus_position = live.focus_position
+        elif n.kind == "ListBox":
+            if len(live.body) != len(kids):
+                return None
+            base = urwid.ListBox(urwid.SimpleFocusListWalker(kids))
+            if kids:
+                base.focus_position = live.focus_position
+        elif n.kind == "Frame":
+            body, header, footer = kids
+            base = urwid.Frame(body, header=header, footer=footer, focus_part=live.focus_position)
+        elif n.kind == "Overlay":
+            bottom, top = kids
+            base = urwid.Overlay(top, bottom, "center", ("relative", n.spec.get("pw", 60)), "middle", ("relative", n.spec.get("ph", 60)))
+        else:
+            return None
+        if n.w is n.base:
+            return base
+        if isinstance(n.w, urwid.Filler):
+            return urwid.Filler(base, valign="top")
+        if isinstance(n.w, urwid.BoxAdapter):
+            return urwid.BoxAdapter(base, n.w.height)
+        return None
+
+    def replica_key_delivery(self, key):
+        """Leaf ids a FRESH tree with the live structure and focus offers `key` to (None: not comparable)."""
+
+        class Sink:
+            def __init__(self):
+                self.got = []
+
+            def leaf_event(self, kind, leaf, size, *detail):
+                if kind == "key":
+                    self.got.append(leaf.lid)
+
+        sink = Sink()
+        for n in walk_containers(self.root):
+            if n.kind == "ListBox":
+                # a ListBox resolves focus requests lazily and re-positions the cursor of the new focus widget when it
+                # does: re-assigning its focus in a replica is not neutral, so such trees are not compared
+                self.res.probe("replica_skipped_listbox_in_tree")
+                return None
+            try:
+                if n.kids and n.base.selectable() != any(c.w.selectable() for c in n.kids if c is not None):
+                    # selectable() of a container is only guaranteed right after ITS OWN contents were set (clause 5);
+                    # a flag gone stale through an edit deeper down changes who is offered keys, which the statement allows
+                    self.res.probe("replica_skipped_stale_selectable_flag")
+                    return None
+            except Exception as e:  # noqa: BLE001
+                self.guard(e, "selectable")
+                return None
+        try:
+            w = self.clone_widgets(self.root, sink)
+            if w is None or not w.selectable():
+                return None
+            w.keypress(self.size, key)
+        except Exception as e:  # noqa: BLE001
+            self.guard(e, "replica")
+            return None
+        return sink.got
+
     # ------------------------------------------------------------------ addressing
     def container_at(self, path) -> Node:
         n = self.root
@@ -490,9 +580,23 @@ class _Run:
             return ["unselectable", key]
         arrow = key in ARROWS
         before = [(n, self.focus_state(n)[0]) for n in walk_containers(self.root)] if arrow else []
+        fresh = self.replica_key_delivery(key) if key in PLAIN else None
         rv = rootw.keypress(self.size, key)
         self.user_steps += 1
         evs = [e for e in self.events if e[0] == "key"]
+        if fresh is not None:
+            # Input follows the focus path: which leaf an unbound character is offered to is a function of the
+            # structure, the focus positions and the size - not of how the tree got there (cached column widths,
+            # a display widget built for an earlier focus, ...).
+            live = [e[1].lid for e in evs]
+            if live != fresh:
+                self.violate(
+                    "C08.2",
+                    f"key-delivery-differs-from-fresh-tree {self.root.kind}",
+                    f"step {i}: key {key!r} at size {self.size} was offered to leaves {live} but a freshly built tree with the same contents, options and focus positions offers it to {fresh}; tree {self.describe(self.root)} focus path {self.focus_path()!r}",
+                )
+            else:
+                self.res.probe("key_delivery_equals_fresh_tree")
         handled = any(e[3][1] for e in evs)
         for e in evs:
             if e[4] is not True:
